@@ -55,3 +55,13 @@ impl std::ops::AddAssign<&Circuit> for Circuit {
         }
     }
 }
+
+pub struct CircuitWriter {
+    circuit: Circuit,
+}
+/// control: a barrier is silently accepted
+impl crate::openqasm::GateWriter for &mut CircuitWriter {
+    fn write_barrier(&mut self, _: &[usize]) -> Result<(), ()> {
+        Ok(())
+    }
+}
